@@ -74,6 +74,8 @@ def cut_segment(trace, tid, dst):
                     cur = None
             if cur == tid:
                 out.write(line)
+            elif cur is None and '"id":"%s"' % tid in line:
+                out.write(line)      # traces without reset lines (one self-contained line per case)
 
 
 def report(v, work, pid, trace, res, classify=None, others=None):
